@@ -310,6 +310,8 @@ fn build_evaluator(name: Name, function: Value, knowledge_requirements: &[String
       // acquire all evaluators needed
       if let Ok(business_knowledge_model_evaluator) = model_evaluator.business_knowledge_model_evaluator() {
         if let Ok(decision_service_evaluator) = model_evaluator.decision_service_evaluator() {
+          #[cfg(dmntk_verif)]
+          crate::verif::emit("bkm", &name.to_string(), input_data);
           requirements.iter().for_each(|id| {
             //TODO refactor: call either business knowledge model or decision service, not both!
             business_knowledge_model_evaluator.evaluate(id, input_data, model_evaluator, output_data);
